@@ -107,13 +107,13 @@ template <class Base> struct ExtS : public Session {
         else if (v == "initI") { F->init(r, Integer(t[2].c_str())); if (!r.empty()) { Integer back; F->convert(back, r); if (back != val(r)) return "CONVERT-MISMATCH"; } }
         else if (v == "convzero") {
             // Extension::convert(Integer&, e) of the zero element a - a, in a child process (it crashed before the repair)
-            F->sub(r, a, a);
+            Elt z(F->zero); Elt z2; F->sub(z2, a, a); if (!F->areEqual(z, z2)) return "ZERO-NOT-CANONICAL";
             int fd[2]; if (pipe(fd) != 0) return "PIPE-ERROR";
             std::cout.flush();
             pid_t pid = fork();
             if (pid == 0) {
                 close(fd[0]); alarm(5);
-                Integer back(77); F->convert(back, r);
+                Integer back(77); F->convert(back, z);
                 std::ostringstream oo; oo << back; std::string res = oo.str();
                 if (write(fd[1], res.c_str(), res.size()) < 0) _exit(3);
                 _exit(0);
